@@ -245,7 +245,18 @@ static void freeInput(Input& in) { if (in.a) GEOSGeom_destroy_r(H, in.a); if (in
 
 struct Res { bool err = false; std::string bytes; };
 
-static Res fromGeom(GEOSGeometry* g) { Res r; if (!g) { r.err = true; return r; } r.bytes = wkb(g); GEOSGeom_destroy_r(H, g); return r; }
+static int plusZero(double* x, double* y, void*) { *x += 0.0; *y += 0.0; return 1; }    // -0.0 -> +0.0
+static Res fromGeom(GEOSGeometry* g, bool normalize = false) {
+    Res r; if (!g) { r.err = true; return r; }
+    // snap-rounding (HotPixelIndex) shuffles its input with std::random_device: fixed-precision overlay results were seen to
+    // differ from call to call in the SIGN OF A ZERO ordinate (0.0 / -0.0).  For those operations only, results are compared
+    // after GEOSNormalize and -0.0 -> +0.0; everything else is compared byte for byte.
+    if (normalize) {
+        GEOSGeometry* t = GEOSGeom_transformXY_r(H, g, plusZero, nullptr);
+        if (t) { GEOSGeom_destroy_r(H, g); g = t; }
+        GEOSNormalize_r(H, g);
+    }
+    r.bytes = wkb(g); GEOSGeom_destroy_r(H, g); return r; }
 static Res fromChar(char c) { Res r; if (c == 2) { r.err = true; return r; } r.bytes = std::string(1, (char) ('0' + c)); return r; }
 static Res fromStr(char* s) { Res r; if (!s) { r.err = true; return r; } r.bytes = s; GEOSFree_r(H, s); return r; }
 
@@ -272,10 +283,10 @@ static Res runOp(const std::string& op, const Input& in) {
     if (op == "union") return fromGeom(GEOSUnion_r(H, a, b));
     if (op == "difference") return fromGeom(GEOSDifference_r(H, a, b));
     if (op == "symdifference") return fromGeom(GEOSSymDifference_r(H, a, b));
-    if (op == "intersectionprec") return fromGeom(GEOSIntersectionPrec_r(H, a, b, in.p));
-    if (op == "unionprec") return fromGeom(GEOSUnionPrec_r(H, a, b, in.p));
+    if (op == "intersectionprec") return fromGeom(GEOSIntersectionPrec_r(H, a, b, in.p), true);
+    if (op == "unionprec") return fromGeom(GEOSUnionPrec_r(H, a, b, in.p), true);
     if (op == "unaryunion") return fromGeom(GEOSUnaryUnion_r(H, a));
-    if (op == "unaryunionprec") return fromGeom(GEOSUnaryUnionPrec_r(H, a, in.p));
+    if (op == "unaryunionprec") return fromGeom(GEOSUnaryUnionPrec_r(H, a, in.p), true);
     if (op == "disjointsubsetunion") return fromGeom(GEOSDisjointSubsetUnion_r(H, a));
     if (op == "buffer") return fromGeom(GEOSBuffer_r(H, a, in.p, 4));
     if (op == "buffernegative") return fromGeom(GEOSBuffer_r(H, a, in.p, 4));
